@@ -14,8 +14,9 @@ polynomial  f = sum c_k x^k  on [a, b] with n segments, h = (b - a)/n, W = |b - 
                     |v - I| <= |b-a| h^4 M4 / 80 + slack otherwise
   simpson, n = 1  : |v - (b-a)(f(a)+f(b))/2| <= slack    ("it is the trapezoid rule"), and
                     |v - I| <= slack                     if deg <= 1
-  romberg         : outcome is `ok` or `err MaxIterationsReached` (never a panic; an evaluation error
-                    exactly when the polynomial cannot be evaluated: several variables / an undeclared one), and
+  romberg         : outcome is `ok` or `err MaxIterationsReached` (never a panic; polynomials that cannot be evaluated
+                    through the univariate entry point - several variables / an undeclared one - are outside the
+                    statement: only "no panic" is demanded of them), and
                     `ok v` with deg <= 3 has  |v - I| <= 1024 u W B  (= slack at n = 24: the finest trapezoid sum a
                     returned entry can rest on has 128 segments, derived bound (1.5*128 + 2*3 + 11) u W B = 209 u W B;
                     Richardson extrapolation multiplies rounding errors by prod (4^k+1)/(4^k-1) < 2)
@@ -182,10 +183,10 @@ def oracle(req, impl):
     if out[0] == "panic":
         return "the integrator panicked"
     if MUSTFAIL:
-        # the polynomial cannot be evaluated through the univariate entry point: the error has to come back as such,
-        # not as a number (n = 0 evaluates nothing)
-        if out[0] == "ok" and not (cmd == "simpson" and n == 0):
-            return "the polynomial cannot be evaluated (several / undeclared variables) but the integrator returned " + " ".join(out)
+        # the polynomial cannot be evaluated through the univariate entry point (several / undeclared variables): it is
+        # not one of the statement's "polynomials of degree 0..8", so no clause applies beyond "never a panic" (above).
+        # That the evaluation error comes back as `err FunctionError` is what the model does and what K compares
+        # (ok vs err); S does not name it a failing input of C05.
         return None
     if not uni or a is None or b is None:
         return None  # not a univariate polynomial / non-finite interval: no clause of the property applies
@@ -234,6 +235,78 @@ def oracle(req, impl):
             return "romberg, degree %d: returned value off by %.3g > rounding slack %.3g" % (
                 deg, float(abs(v - I)), float(sl))
     return None
+
+
+# ----------------------------------------------------------------------------- K: model vs implementation
+#
+# The statement fixes the value of the Simpson / trapezoid rule only "to rounding" (and Romberg's to the exact
+# integral for degree <= 3), so the correspondence must not demand more bits than that: an implementation that adds
+# the same weighted samples in another order (two accumulators, 3(f1+f2) for 3f1+3f2, ...) is as good as the model's
+# order.  The framework's default rule (bit-equal, both NaN, or 1e-9 relative TO THE RESULT) is too strict exactly
+# where the integral cancels (odd integrand on a symmetric interval, 2x-1 on [0,1]): the result is then rounding
+# noise of size ~u W B around 0 and two correct summation orders differ by 100 % of it.  The natural scale of a
+# request is W B (width x size of the integrand), the scale every term of the oracle's allowance is proportional to;
+# two answers are taken to agree when they differ by at most the allowance S grants a single answer:
+#     simpson / trapezoid :  32 (n + 8) u W B        romberg :  1024 u W B
+# (distance of two correct summation orders of the same samples: <= 2 (n + 4) u W B for Simpson, <= 2 * 2 (128 + 4) u W B
+# for a Romberg entry resting on 128 segments; measured on the re-associated Simpson sums of seeded/C05-b2: <= 0.4 u W B.
+# A wrong rule is off by a fraction of W B itself - 1e10 times more - and S judges every implementation answer against
+# the exact integral with the same allowance, so nothing the statement forbids can hide in it.)
+# Still exact: ok vs err vs panic, the error being the non-convergence error (the statement names it) or an evaluation
+# error; WHICH evaluation error (kind of the PolynomialError) the statement does not say - not compared.
+
+def _fbits(tok):
+    if len(tok) < 2 or tok[0] != "f" or not tok[1:].isdigit():
+        return None
+    return struct.unpack("<d", struct.pack("<Q", int(tok[1:])))[0]
+
+
+def _default_close(x, y):
+    """the framework's rule for two floats: equal, both NaN, or within 1e-9 relative"""
+    if x != x or y != y:
+        return x != x and y != y
+    if x == y:
+        return True
+    if x in (float("inf"), float("-inf")) or y in (float("inf"), float("-inf")):
+        return False
+    return abs(x - y) <= 1e-9 * max(abs(x), abs(y), 1e-300)
+
+
+def compare(req, impl, model):
+    ti, tm = impl.split(), model.split()
+    if ti == tm:
+        return None
+    if not ti or not tm:
+        return "empty answer: impl %r model %r" % (impl, model)
+    if ti[0] != tm[0]:
+        return "field 0: impl %s model %s" % (ti[0], tm[0])
+    if ti[0] == "err":
+        # `err MaxIterationsReached` | `err FunctionError <kind>`: the class of the error is compared, the kind of the
+        # evaluation error is not
+        if len(ti) > 1 and len(tm) > 1 and ti[1] == tm[1]:
+            return None
+        return "field 1: impl %s model %s" % (" ".join(ti[1:2]), " ".join(tm[1:2]))
+    if ti[0] == "ok" and len(ti) == 2 and len(tm) == 2:
+        x, y = _fbits(ti[1]), _fbits(tm[1])
+        if x is None or y is None:
+            return "field 1: impl %s model %s" % (ti[1], tm[1])
+        if _default_close(x, y):
+            return None
+        try:
+            cmd, terms, uni, a, b, n, tol = parse(req)
+        except (Bad, IndexError, ValueError):
+            return "field 1: impl %s model %s" % (ti[1], tm[1])
+        vx, vy = fr(ti[1][1:]), fr(tm[1][1:])
+        if uni and a is not None and b is not None and vx is not None and vy is not None and not (cmd == "simpson" and n == 0):
+            allow = slack(terms, a, b, n if cmd == "simpson" else 24)
+            if abs(vx - vy) <= allow:
+                return None
+            return "field 1: impl %s model %s (differ by %.3g, more than the rounding allowance %.3g)" % (
+                ti[1], tm[1], float(abs(vx - vy)), float(allow))
+        return "field 1: impl %s model %s" % (ti[1], tm[1])
+    if len(ti) != len(tm):
+        return "different number of fields"
+    return "impl %s model %s" % (impl[:60], model[:60])
 
 
 def nontrivial(req, model):
